@@ -36,7 +36,9 @@ func c18Schema() TxnSchema {
 		// "key" never changes and has a schema index: rows can be looked up through it
 		{Name: "Pair", IsRoot: true, Indexes: [][]string{{"key"}}, Cols: []ColSpec{{Name: "name", Type: str}, {Name: "n", Type: num},
 			{Name: "s", Type: ColType{Kind: "set", Key: "integer", Min: 0, Max: -1}}, {Name: "m", Type: ColType{Kind: "map", Key: "string", Val: "integer", Min: 0, Max: -1}},
-			{Name: "key", Type: str}}},
+			{Name: "key", Type: str},
+			// two columns with few values, for client indexes that file several rows under one value
+			{Name: "zone", Type: str}, {Name: "kind", Type: str}}},
 		{Name: "Other", IsRoot: true, Cols: []ColSpec{{Name: "name", Type: str}, {Name: "n", Type: num}}},
 	}}
 	ts := TxnSchema{Spec: spec, Specs: map[string][]ISpec{"Pair": {}, "Other": {}}}
@@ -307,11 +309,14 @@ func c18Run(r *Run, h int) {
 	ctx, cancel := ctxT(60 * time.Second)
 	defer cancel()
 	// initial rows
+	rig.clientIdx = map[string][]model.ClientIndex{"Pair": {
+		{Columns: []model.ColumnKey{{Column: "zone"}}}, {Columns: []model.ColumnKey{{Column: "kind"}}}}}
 	var setup []OperationJ
-	nRows := 4
+	nRows := 6
 	for i := 0; i < nRows; i++ {
 		row := pairRow(int64(i))
 		row["key"] = VA(AS(fmt.Sprintf("r%d", i+1)))
+		row["zone"], row["kind"] = VA(AS(fmt.Sprintf("z%d", i%2))), VA(AS(fmt.Sprintf("k%d", (i/2)%2)))
 		setup = append(setup, OperationJ{Op: "insert", Table: "Pair", UUID: mkUUID(i + 1), Row: row})
 	}
 	setup = append(setup, OperationJ{Op: "insert", Table: "Other", UUID: mkUUID(50), Row: Row{"name": VA(AS("o")), "n": VA(AI(0))}})
@@ -383,10 +388,39 @@ func c18Run(r *Run, h int) {
 		k := version.Add(1)
 		u := mkUUID(1 + lr.Intn(nRows))
 		op := OperationJ{Op: "update", Table: "Pair", Where: []WCondJ{{Col: "_uuid", Fn: "==", Val: VA(AU(u))}}, Row: pairRow(k)}
+		if lr.Intn(3) == 0 {
+			op.Row["zone"] = VA(AS(fmt.Sprintf("z%d", lr.Intn(2)))) // rows move between the entries of the client indexes
+		}
 		wctx, wc := ctxT(2 * time.Second)
 		_, _ = writer.Transact(wctx, op.toOvs())
 		wc()
 	})
+	// readers that select through two client indexes at once (several rows under each value, the two
+	// candidate sets differ): a lookup reads the indexes, it does not rearrange them
+	for k := 0; k < 2; k++ {
+		spawn(rng.Int63(), func(lr *rand.Rand) {
+			stat.call("WhereAll(zone, kind).List", limit, func(ctx context.Context) error {
+				z, kd := fmt.Sprintf("z%d", lr.Intn(2)), fmt.Sprintf("k%d", lr.Intn(2))
+				probe := adb.NewModel("Pair", "", nil)
+				ptrs := fieldPtrs(adb, "Pair", probe, []string{"zone", "kind"})
+				res := reflect.New(reflect.SliceOf(reflect.PtrTo(pairType)))
+				err := a.WhereAll(probe, model.Condition{Field: ptrs[0], Function: ovsdb.ConditionEqual, Value: z},
+					model.Condition{Field: ptrs[1], Function: ovsdb.ConditionEqual, Value: kd}).List(ctx, res.Interface())
+				if err == nil {
+					var ms []model.Model
+					for i := 0; i < res.Elem().Len(); i++ {
+						m := res.Elem().Index(i).Interface()
+						ms = append(ms, m)
+						if _, row := adb.RowOf("Pair", m); row["zone"].A.S != z || row["kind"].A.S != kd {
+							torn.Store(fmt.Sprintf("selected by zone == %s and kind == %s: %s", z, kd, row.Canon()))
+						}
+					}
+					checkModels(ms)
+				}
+				return err
+			})
+		})
+	}
 	// readers
 	spawn(rng.Int63(), func(lr *rand.Rand) {
 		stat.call("List", limit, func(ctx context.Context) error {
@@ -662,6 +696,42 @@ func c18Run(r *Run, h int) {
 	}
 	if err := final(); err != nil {
 		r.Violation("live", cs, err.Error(), "echo succeeds", true, "after the concurrent phase the client cannot reach the server any more", "")
+		return
+	}
+	// and its indexes still say what its rows say: a lookup through a client index finds every row that holds
+	// the value (all the reading above has changed nothing)
+	if a.Cache() != nil && a.Cache().Table("Pair") != nil {
+		fctx, fc := ctxT(5 * time.Second)
+		defer fc()
+		for try := 0; ; try++ {
+			all := reflect.New(reflect.SliceOf(reflect.PtrTo(pairType)))
+			if err := a.List(fctx, all.Interface()); err != nil {
+				break
+			}
+			bad := ""
+			for _, z := range []string{"z0", "z1"} {
+				want := 0
+				for i := 0; i < all.Elem().Len(); i++ {
+					if _, row := adb.RowOf("Pair", all.Elem().Index(i).Interface()); row["zone"].A.S == z {
+						want++
+					}
+				}
+				probe := adb.NewModel("Pair", "", nil)
+				res := reflect.New(reflect.SliceOf(reflect.PtrTo(pairType)))
+				err := a.WhereAll(probe, model.Condition{Field: fieldPtrs(adb, "Pair", probe, []string{"zone"})[0], Function: ovsdb.ConditionEqual, Value: z}).List(fctx, res.Interface())
+				if got := res.Elem().Len(); err == nil && got != want {
+					bad = fmt.Sprintf("zone == %s selects %d rows through the client index, %d rows of the cache hold it", z, got, want)
+				}
+			}
+			if bad == "" {
+				break
+			}
+			if try >= 20 { // (a last notification may have been on its way)
+				r.Violation("live", cs, bad, "the index finds the rows", true, "after concurrent reads a client index no longer finds the rows that hold a value", "")
+				return
+			}
+			time.Sleep(10 * time.Millisecond)
+		}
 	}
 }
 
